@@ -53,6 +53,10 @@ class C06(Property):
         cases = []
         k = 0
         while len(cases) < n:
+            if rng.random() < 0.08:
+                cases.extend(self.absent_family(rng, k))
+                k += 1
+                continue
             opts, names = gen.gen_options(rng, features=("alt", "cmd", "pos", "adj", "grp"), env_p=0.15, allow_catch=False)
             in_alt = set()
             for x in gen.walk(opts):
@@ -117,8 +121,48 @@ class C06(Property):
                             break
         return cases
 
+    @staticmethod
+    def absent_family(rng, k):
+        """A defaulted item that can come from an environment variable (with or without a name on the line), absent from the
+        line: with the variable set to a valid value the line is accepted -- then with the variable unset it must be too."""
+        names = gen.Names(rng)
+        var = "BPAF_VT_A"
+        n = gen.named([], [], [var], None) if rng.random() < 0.6 else gen.named([names.short()], [], [var], None)
+        if rng.random() < 0.6:
+            leaf, val = gen.arg(n, "N", "u32"), b"7"
+        else:
+            leaf, val = gen.req_flag(n, "unit"), b"1"
+        w = rng.choice(["fallback", "fallback-with", "optional", "many"])
+        if w == "fallback":
+            item = gen.wrap("fallback", leaf, v=gen.vnum(4), show=False)
+        elif w == "fallback-with":
+            item = gen.wrap("fallback-with", leaf, r="(ok unit)")
+        elif w == "optional":
+            item = gen.wrap("optional", leaf, catch=False)
+        else:
+            item = gen.wrap("many", leaf, catch=False)
+        other = gen.flag(names.named())
+        fields = [item, other]
+        rng.shuffle(fields)
+        opts = gen.options(gen.con(*fields), descr="Lab")
+        argv = [gen.spell_flag(rng, other)] if rng.random() < 0.5 else []
+        gid = "g%dz" % k
+        return [Case(gid + "s", opts, argv, env=[(var.encode(), val)], tags={"role": "defaulted-set", "group": gid, "wrap": w}),
+                Case(gid + "u", opts, argv, unset=[var.encode()], tags={"role": "defaulted-unset", "group": gid, "wrap": w})]
+
     def judge(self, cases, model, impl):
         out, base, nontrivial, dist = [], {}, [], {}
+        dset = {c.tags["group"]: c for c in cases if c.tags.get("role") == "defaulted-set"}
+        for c in cases:
+            if c.tags.get("role") == "defaulted-unset":
+                dist["defaulted:" + c.tags["wrap"]] = dist.get("defaulted:" + c.tags["wrap"], 0) + 1
+                cs = dset.get(c.tags["group"])
+                if cs is not None and compare.impl_class(impl.get(cs.id)) == "OK":
+                    nontrivial.append(c.line())
+                    if compare.impl_class(impl.get(c.id)) != "OK":
+                        out.append(Finding("violation", c, "an absent defaulted item (`%s`, variable unset) makes the run fail: %s (with the "
+                                                           "variable set the same line is accepted: %s)"
+                                           % (c.tags["wrap"], common.show(impl.get(c.id)), common.show(impl.get(cs.id))), related=[cs]))
         for c in cases:
             r = compare.agree_class_value(model.get(c.id), impl.get(c.id))
             if r:
